@@ -10,7 +10,9 @@
 //
 //	exported?            first letter upper case
 //	lock / lockIndex     the top-level statement `m.rwLock.Lock()` (w) or `RLock()` (r), if any
-//	deferred             the statement right after it is `defer m.rwLock.Unlock()/RUnlock()`
+//	deferred             the lock is held for exactly the rest of the body: the statement right after the
+//	                     acquire is `defer m.rwLock.Unlock()/RUnlock()`, or the matching release stands
+//	                     immediately before every return / at the end (explicitRelease)
 //	extraLockOps         every other operation on the mutex anywhere in the body
 //	preReads/preWrites/preCalls   what the statements BEFORE the acquire do
 //	reads/writes/calls            what the rest of the body does, DIRECTLY
@@ -421,6 +423,157 @@ func paramType(fd *ast.FuncDecl, idx int) ast.Expr {
 	return nil
 }
 
+
+// mentionsRecv: the node mentions the receiver variable (function literals included).
+func (k *walker) mentionsRecv(n ast.Node) bool {
+	found := false
+	ast.Inspect(n, func(x ast.Node) bool {
+		if id, ok := x.(*ast.Ident); ok && k.recv != nil && id.Name == k.recvNm && id.Obj == k.recv {
+			found = true
+		}
+		return !found
+	})
+	return found
+}
+
+// explicitRelease recognises, in the statements after the acquire, the discipline "the lock
+// is released exactly once on every way out of the body and the instance is not touched
+// afterwards" written without defer:
+//
+//   - every return statement is either immediately preceded, in its own block, by the
+//     matching release (and its result expressions do not mention the receiver), or lies
+//     after a top-level release in statements that do not mention the receiver at all;
+//   - if the body can fall off its end (no results, last statement not a return), there is
+//     such a top-level release;
+//   - there is no other operation on the mutex, and no release that is not of these forms.
+//
+// It returns the release statements.  (A panic between acquire and release leaves the lock
+// held, unlike with defer; a panic is a violation of the property by itself.)
+func (k *walker) explicitRelease(rest []ast.Stmt, want string, hasResults bool) ([]ast.Stmt, bool) {
+	isRelease := func(st ast.Stmt) bool {
+		es, ok := st.(*ast.ExprStmt)
+		if !ok {
+			return false
+		}
+		op, ok := k.lockCall(es.X)
+		return ok && op == want
+	}
+	// the first top-level release, if any: everything after it is the tail
+	tail := -1
+	for i, st := range rest {
+		if isRelease(st) {
+			// "release; return" at top level is the per-return form, not a tail
+			if i+1 < len(rest) {
+				if _, isRet := rest[i+1].(*ast.ReturnStmt); isRet {
+					continue
+				}
+			}
+			tail = i
+			break
+		}
+	}
+	var used []ast.Stmt
+	body := rest
+	if tail >= 0 {
+		for _, st := range rest[tail+1:] {
+			if k.mentionsRecv(st) {
+				return nil, false
+			}
+		}
+		used = append(used, rest[tail])
+		body = rest[:tail]
+	}
+	ok := true
+	var walkList func(list []ast.Stmt)
+	var walkStmt func(st ast.Stmt)
+	walkList = func(list []ast.Stmt) {
+		for i, st := range list {
+			if isRelease(st) {
+				// must be immediately followed by a return in the same list
+				if i+1 < len(list) {
+					if rs, isRet := list[i+1].(*ast.ReturnStmt); isRet {
+						for _, r := range rs.Results {
+							if k.mentionsRecv(r) {
+								ok = false
+							}
+						}
+						used = append(used, st)
+						continue
+					}
+				}
+				ok = false
+				continue
+			}
+			if _, isRet := st.(*ast.ReturnStmt); isRet {
+				if i == 0 || !isRelease(list[i-1]) {
+					ok = false // a way out that keeps the lock
+				}
+				continue
+			}
+			walkStmt(st)
+		}
+	}
+	walkStmt = func(st ast.Stmt) {
+		switch x := st.(type) {
+		case *ast.BlockStmt:
+			walkList(x.List)
+		case *ast.IfStmt:
+			walkList(x.Body.List)
+			if x.Else != nil {
+				walkStmt(x.Else)
+			}
+		case *ast.ForStmt:
+			walkList(x.Body.List)
+		case *ast.RangeStmt:
+			walkList(x.Body.List)
+		case *ast.SwitchStmt:
+			for _, c := range x.Body.List {
+				walkList(c.(*ast.CaseClause).Body)
+			}
+		case *ast.TypeSwitchStmt:
+			for _, c := range x.Body.List {
+				walkList(c.(*ast.CaseClause).Body)
+			}
+		case *ast.SelectStmt:
+			ok = false
+		case *ast.LabeledStmt:
+			walkStmt(x.Stmt)
+		case *ast.BranchStmt:
+			if x.Tok == token.GOTO {
+				ok = false
+			}
+		default:
+			// simple statements: must not hide a mutex operation (function literals included)
+			ast.Inspect(st, func(n ast.Node) bool {
+				if e, isE := n.(ast.Expr); isE {
+					if _, isLock := k.lockCall(e); isLock {
+						ok = false
+					}
+				}
+				return ok
+			})
+		}
+	}
+	walkList(body)
+	if !ok {
+		return nil, false
+	}
+	if tail < 0 {
+		// no tail release: the body must not be able to fall off its end with the lock held
+		if len(body) == 0 {
+			return nil, false
+		}
+		if _, isRet := body[len(body)-1].(*ast.ReturnStmt); !isRet {
+			return nil, false
+		}
+	}
+	if len(used) == 0 {
+		return nil, false
+	}
+	_ = hasResults
+	return used, true
+}
+
 func analyse(w *world, fd *ast.FuncDecl) *methodInfo {
 	mi := &methodInfo{name: fd.Name.Name, line: fset.Position(fd.Pos()).Line, lock: "none",
 		exported: unicode.IsUpper([]rune(fd.Name.Name)[0])}
@@ -468,6 +621,18 @@ func analyse(w *world, fd *ast.FuncDecl) *methodInfo {
 				if op, ok := k.lockCall(ds.Call); ok && op == want {
 					mi.deferred = true
 					k.skip[stmts[acq+1]] = true
+					recognised++
+				}
+			}
+		}
+		if !mi.deferred {
+			// the other way to hold the lock for exactly the rest of the body: an explicit
+			// release immediately before every return (and before falling off the end)
+			want := map[string]string{"w": "Unlock", "r": "RUnlock"}[mi.lock]
+			if rel, ok := k.explicitRelease(stmts[acq+1:], want, fd.Type.Results != nil && len(fd.Type.Results.List) > 0); ok {
+				mi.deferred = true
+				for _, st := range rel {
+					k.skip[st] = true
 					recognised++
 				}
 			}
